@@ -159,8 +159,37 @@ class Crate:
         """The unique body with this def-path (None if absent)."""
         v = self._by_path.get(path)
         if not v:
-            return None
+            return self._relocated(path)
         return v[0]
+
+    def _relocated(self, path):
+        """A function the rules know by path that was moved into (or out of) a nested module of the same file: the
+        unique function of that name whose module path extends, or is extended by, the expected parent. The actual
+        path is registered as an alias so that resolved callees compare equal to the expected path."""
+        if not isinstance(path, str) or "::" not in path or path.startswith("<"):
+            return None
+        parent, name = path.rsplit("::", 1)
+        cands = []
+        for b in self.bodies:
+            if b.get("name") != name or b.get("dk") not in ("Fn", "AssocFn") or b["path"].startswith("<"):
+                continue
+            bp = b["path"].rsplit("::", 1)[0]
+            if bp != parent and (bp.startswith(parent + "::") or parent.startswith(bp + "::")):
+                cands.append(b)
+        if len(cands) != 1:
+            return None
+        from . import hirq
+        actual = cands[0]["path"]
+        hirq.ALIAS[actual] = path
+        # the body itself (and items nested in it) is known under the expected path from now on
+        for b in self.bodies:
+            if b["path"] == actual or b["path"].startswith(actual + "::"):
+                old = b["path"]
+                b["actual_path"] = old
+                b["path"] = path + old[len(actual):]
+                hirq.ALIAS[old] = b["path"]
+                self._by_path.setdefault(b["path"], []).append(b)
+        return cands[0]
 
     def fns(self, pred):
         return [b for b in self.bodies if pred(b)]
